@@ -289,6 +289,19 @@ def run(ctx, load):
         if k[0].startswith('C01.'):
             ctx.floors.pop(k)
     ctx.floor('C18.registers-spilled-before-scan', 1)
+    # with the collector a program sees what it sees without it only if the collector never reclaims what a container holds:
+    # every container marks all of its elements on every path (shared with C01.container-mark)
+    from .rules_c01 import check_container_marks
+    Pm = load(['src/GC.c', 'src/Array.c', 'src/List.c', 'src/Table.c', 'src/Tree.c', 'src/Tuple.c', 'src/Pointer.c', 'src/Iter.c', 'src/Function.c', 'src/Thread.c', 'src/Exception.c', 'src/Type.c', 'src/Num.c', 'src/String.c', 'src/File.c'], 'default')
+    ctx.config = 'default'
+    before = len(ctx.obs)
+    check_container_marks(Pm, ctx)
+    for o in ctx.obs[before:]:
+        o['rule'] = 'C18.collector-keeps-what-containers-hold'
+    for k in list(ctx.floors):
+        if k[0].startswith('C01.'):
+            ctx.floors.pop(k)
+    ctx.floor('C18.collector-keeps-what-containers-hold', 10)
 
 
 EXPLANATION = (
